@@ -713,7 +713,7 @@ func (p *Parser) OrCondition() (interface{}, error) {
 	}
 
 	for p.match(OR) {
-		ac := SearchCondition{LHS: ret.(Predicate)}
+		ac := SearchCondition{LHS: ret}
 		ac.RHS, err = p.OrCondition()
 		if err != nil {
 			return nil, err
@@ -733,7 +733,11 @@ func (p *Parser) AndCondition() (interface{}, error) {
 	}
 
 	for p.match(AND) {
-		ac := BooleanTerm{LHS: ret.(Predicate)}
+		lhs, ok := ret.(Predicate)
+		if !ok {
+			return nil, syntaxErr(p.Prev())
+		}
+		ac := BooleanTerm{LHS: lhs}
 		ac.RHS, err = p.AndCondition()
 		if err != nil {
 			return nil, err
